@@ -14,6 +14,39 @@ COMPONENTS = {
 }
 
 
+CLU_ASSUME = [
+    "simetcd (in-memory MVCC etcd model: revisions, txns, leases on the simulated clock, watches) stands in for the etcd cluster; the etcd client's KV, lessor and concurrency (session/mutex) code is real",
+    "simengine (stateful per-node container engine) stands in for docker/yavirt engines",
+    "a crash is the death of every goroutine of the core instance at a seam step; the bbolt log file is real and is handed to the new instance as a copy taken at that step",
+    "exactly one injected failure per history; steps run under a utils.Txn rollback context (compensating steps) are never failed by injection",
+    "no garbage collection inside a run (GOGC off, collect between runs), GOMAXPROCS=1: needed for replayable goroutine order between seams",
+]
+
+COMPONENTS["cluster"] = {
+    "real": ["cluster/calcium", "resource/cobalt", "resource/plugins/cpumem", "store/etcdv3 (Mercury) + meta (ETCD)", "lock/etcdlock + etcd client concurrency (Session, Mutex)", "etcd clientv3 KV + lessor", "wal (Hydro) + wal/kv (Lithium) + bbolt on a real file", "utils.Txn/PCR, strategy, types"],
+    "stub": ["etcd server (simetcd)", "node engines (simengine)", "metrics (zero-value client)", "engine cache background checkers (not started)"],
+}
+
+
+def clu(rule, level="exploration", quick=None, thorough=None, probes=(), **kw):
+    d = {
+        "harness": "cluster",
+        "level": level,
+        "quick": quick or {"seconds": 40, "runs": 4000},
+        "thorough": thorough or {"seconds": 900, "runs": 400000},
+        "rule": rule,
+        "assumptions": CLU_ASSUME,
+        "expect_probes": ["op_create"] + list(probes),
+    }
+    d.update(kw)
+    return d
+
+
+_C = ("one evaluation = one seeded history of 3-10 cluster API calls (create with every strategy / node filter incl. repeated and cross-pod includes, "
+      "remove, dissociate, realloc, replace, set-node, control, add/remove node and pod, node-resource check, capacity) on 1-2 pods and 1-4 nodes "
+      "(random cores, memory, NUMA, labels) through real Calcium over simulated etcd and engines; ")
+_NT = "non-trivial = at least one workload was created / changed / removed; distinct = distinct hash of the full seam trace (task, call, fault decision at every scheduler step)"
+
 def res(level_rule, extra_probes=(), **kw):
     d = {
         "harness": "res",
@@ -35,6 +68,33 @@ _R = ("one evaluation = one seeded history of 4-30 resource-manager operations (
       "(task, store call, fault decision at every step)")
 
 PROPS = {
+    "C10": clu(_C + "sequential histories carry one injected store/plugin/engine/log failure (quick: 4 sampled positions per history after a fault-free measuring run; thorough: every position), "
+               "concurrent histories (2-4 client tasks on their own workloads, random/sticky/PCT schedules) are checked at quiescence; " + _NT,
+               level="fault_enumeration", quick={"seconds": 40, "runs": 1200, "sweep": "err:4"}, thorough={"seconds": 1200, "runs": 40000, "sweep": "err:all"},
+               probes=["op_realloc", "op_replace", "op_remove", "op_set_node"]),
+    "C11": clu(_C + "one injected failure per history (quick: 4 sampled positions; thorough: every position of every operation); the store/plugin/engine snapshot before and after every failed call is compared; " + _NT,
+               level="fault_enumeration", quick={"seconds": 40, "runs": 1200, "sweep": "err:4"}, thorough={"seconds": 1200, "runs": 40000, "sweep": "err:all"},
+               probes=["c11_failed_op_unchanged", "failed_set_node_injected", "failed_realloc_injected", "failed_replace_injected", "failed_remove_node_injected", "failed_add_node_injected"]),
+    "C12": clu(_C + "create-heavy mix; the result stream of every create is compared with the plan the deployment actually executed (read from its in-progress markers at every scheduler step) and with store / engine state; one injected failure per history (sampled / swept); " + _NT,
+               level="fault_enumeration", quick={"seconds": 40, "runs": 1200, "sweep": "err:4"}, thorough={"seconds": 1200, "runs": 40000, "sweep": "err:all"}),
+    "C13": clu(_C + "while every create runs, Store.GetDeployStatus is evaluated at *every* scheduler step (everything else parked) against recorded workloads and the markers' initial values; one injected failure per history among the steps of deploying instances; concurrent histories checked at quiescence; " + _NT,
+               level="fault_enumeration", quick={"seconds": 40, "runs": 1000, "sweep": "err:3"}, thorough={"seconds": 1200, "runs": 40000, "sweep": "err:all"},
+               probes=["c13_monitor_checks"]),
+    "C14": clu("one evaluation = a seeded prefix of 0-2 cluster calls, then one create (1-4 nodes, 1-3 instances, any strategy) during which the core process dies at one faultable seam step "
+               "(quick: 6 sampled crash points per deployment after a measuring run; thorough: every crash point), 45 s of virtual time pass, a fresh instance opens the copied log file and runs DisasterRecover; "
+               "non-trivial = the process really died inside the create; distinct = distinct seam-trace hash",
+               level="fault_enumeration", quick={"seconds": 45, "runs": 700, "sweep": "crash:6"}, thorough={"seconds": 1500, "runs": 40000, "sweep": "crash:all"},
+               probes=["crashed_during_create", "crash_exempt_unlogged_container"], fault_probes=["crashed_during_create"]),
+    "C20": clu(_C + "every CreateLock/Lock/TryLock/Unlock is recorded per goroutine by a store wrapper; half of the histories are concurrent (2-4 tasks) and must finish without a lock timeout in fault-free runs; " + _NT,
+               probes=["lock_requested_while_holding", "lock_events"]),
+    "C21": clu(_C + "capacity-heavy mix with DUMMY strategy and a request every node satisfies; nodes go up and down through heartbeat TTLs as virtual time advances; result set compared with a reference filter; " + _NT,
+               probes=["c21_selection_checked"]),
+    "C22": clu("one evaluation = a concurrent history (2-3 client tasks, random/sticky/PCT schedules) of 6-13 add-pod/remove-pod/add-node/remove-node/create/remove calls over overlapping names with at most one injected store/plugin failure; "
+               "referential consistency is checked when every call has returned and background work has run dry; " + _NT,
+               probes=["op_add_node", "op_remove_node", "op_remove_pod"]),
+    "C30": clu(_C + "half of the operations are run-and-wait requests (count 1-3, stdin or not) against engines scripted with log lines, exit codes and log/wait failures, plus one injected failure on an engine Logs/Attach/Wait call; " + _NT,
+               quick={"seconds": 40, "runs": 1200, "sweep": "err:3"}, thorough={"seconds": 900, "runs": 40000, "sweep": "err:all"},
+               probes=["lambda_stream_closed", "lambda_exit_code_reported"]),
     "C04": res(_R, extra_probes=["bound_instance"]),
     "C05": res(_R, extra_probes=["bound_instance"]),
     "C06": res(_R, extra_probes=["direct_plugin_calls"]),
@@ -52,7 +112,19 @@ _MON = ("Invariant checked inside seeded simulated histories of the real resourc
 _NOTE_RES = ("Trusted: the simetcd model of the plugin's etcd (KV/Txn/lease semantics), the reference oracle in sim/harness/res.go, "
              "the Go runtime's determinism at GOMAXPROCS=1 (policed by per-run trace-hash re-runs).")
 
+_NOTE_CLU = ("Trusted: simetcd and simengine as models of etcd and of node engines, the oracles in sim/harness/cluster_*.go, the Go runtime's "
+             "determinism at GOMAXPROCS=1 with GC off (policed by trace-hash re-runs in a fresh process). A clean batch is evidence over the explored runs, not proof.")
+
 MANIFEST_TEXT = {
+    "C10": {"text": "Whole-system simulation: real Calcium/cobalt/cpumem/Mercury/etcd-concurrency/WAL over simulated etcd and engines. After every operation of a sequential history (each history swept with single injected failures) and at quiescence of concurrent histories, every node's recorded usage must equal the sum of the workloads recorded on it and the node resource check must report no differences.", "note": _NOTE_CLU},
+    "C11": {"text": "Fault enumeration over the seam calls of every operation kind: for each single failing step, the canonical snapshot of store, plugin records and engine containers after a call that reported failure must equal the snapshot before it (item-wise for multi-item calls; a failed replace keeps the old workload recorded and running).", "note": _NOTE_CLU},
+    "C12": {"text": "For every create the result stream must close and carry either one failure with nothing created or exactly one message per instance of the plan the deployment executed; successes must be recorded, running and placed as reported, failures must leave no record, container or usage. With and without one injected failure.", "note": _NOTE_CLU},
+    "C13": {"text": "Step invariant evaluated by the scheduler at every step of every create (all goroutines parked, so the read is atomic): recorded <= GetDeployStatus <= prior + planned per node; after return the count equals the recorded workloads and no marker remains. Single injected failures among the instance-deployment steps.", "note": _NOTE_CLU + " etcd backend only in this check; the Redis backend's marker handling is covered by C23's differential check."},
+    "C14": {"text": "Crash-point enumeration: the process is killed at each faultable seam step of a deployment (store, plugin, engine and log writes/commits), a fresh instance recovers from the shared store, engines and the real bbolt log file; afterwards usage == sum of workloads on every node, no marker of the interrupted deployment remains, every instance is recorded+started or absent from store and engine (except a container whose creating goroutine made no further step before the crash).", "note": _NOTE_CLU},
+    "C20": {"text": "A store wrapper records every lock call per goroutine for every operation kind and adversarial node filters; pod locks must precede workload locks, each group strictly ascending, node-operation locks only with nothing else held; concurrent fault-free histories must not end in lock timeouts.", "note": _NOTE_CLU},
+    "C21": {"text": "The node set an operation acts on (observed through DUMMY capacity with a request every node satisfies, and through plans) must equal a reference filter over the simulated store state, with node availability driven by heartbeat TTLs on the virtual clock.", "note": _NOTE_CLU + " No schedule or fault dimension in the property itself: invariant monitor inside simulated histories."},
+    "C22": {"text": "Concurrent histories of pod/node/workload calls on overlapping names under seeded schedules (random, sticky, PCT) with at most one injected failure; at quiescence every node has a resource record and vice versa, every node's pod exists, no removed pod has nodes, every workload's node exists and listing workloads succeeds. Four races found by this check are recorded as known findings (see known_findings.json).", "note": _NOTE_CLU},
+    "C30": {"text": "Run-and-wait requests against engines with scripted log/wait outcomes: the stream closes, the last message per workload is its exit code (or an error), and afterwards record, container, usage and the create-lambda log entry are gone.", "note": _NOTE_CLU},
     "C04": {"text": _MON + " Oracle: the instances of every accepted Alloc/Realloc fit jointly into the pre-state's free cores, NUMA memory and total memory (valid pre-states only).", "note": _NOTE_RES},
     "C05": {"text": _MON + " Oracle: pieces of every bound instance = round(cpu*shareBase), at most one fractional core, recorded amount agrees.", "note": _NOTE_RES},
     "C06": {"text": _MON + " Liveness is decided by a deterministic step budget: every loop of the plugin's planner is instrumented (scratch copy only) and a call that exceeds 1e6 iterations, or panics, is a violation with a replayable input.", "note": _NOTE_RES + " Loop ticks are inserted by tools/maporder into the scratch copy, not into /repo."},
